@@ -18,6 +18,44 @@ def run(ctx: common.Ctx):
         'store of its free-standing parent (C19_reuse_refused_refuted / _partial)']
     ctx.require_coq(['properties/C19'], extra_targets=['RepeatedRun'])
     c03.run_slots(ctx, ('C19',), ctx.scale(210, 1500), 8)
+    probe_ancestor_into_descendant(ctx)
+
+
+SIG_ANCESTOR = 'C19:refusal-not-atomic:ancestor-into-descendant'   # known finding (same root cause as D15)
+
+
+def probe_ancestor_into_descendant(ctx: common.Ctx):
+    """Directed: a free-standing number expression whose proper sub-model spans the whole store is assigned into
+    one of its own descendants (paren.raw_inner_expr = enclosing sum). detach() cannot tell the sub-model from
+    a root (D15), takes every token out of the store, and the splice then fails on a reference token that
+    has left the store: the call is refused with the document emptied. Recorded finding; any OTHER outcome that
+    changes the document (or an accepted assignment) is reported under the general signatures."""
+    from autobean_refactor import parser as parser_lib, models
+    from harness import gen_docs
+    parser = parser_lib.Parser()
+    for text in ('(1 + 2) * 3', '(1 + 2)', '((4))', '-(1 + 2)'):
+        try:
+            e = parser.parse(text, models.NumberExpr)
+            add = e.raw_number_add_expr
+            atom = add.raw_operands[0].raw_operands[0]
+            if isinstance(atom, models.NumberUnaryExpr):
+                atom = atom.raw_operand
+            if not isinstance(atom, models.NumberParenExpr):
+                continue
+        except Exception:
+            continue
+        before = gen_docs.print_model(e)
+        ctx.count('ancestor_into_descendant_probes')
+        try:
+            atom.raw_inner_expr = add
+        except Exception as x:
+            after = gen_docs.print_model(e)
+            if after != before:
+                ctx.monitor_failure(SIG_ANCESTOR, f'{text!r}: paren.raw_inner_expr = <the enclosing sum> raised {type(x).__name__} '
+                                    f'and left the document printing {after!r}', {'text': text, 'assign': 'paren.raw_inner_expr = expr.raw_number_add_expr'})
+        else:
+            ctx.monitor_failure(c03.SIG_REUSE, f'{text!r}: an enclosing expression was accepted as its own descendant\'s child',
+                                {'text': text})
 
 
 def search(ctx: common.Ctx):
